@@ -218,13 +218,19 @@ def edge_epochs():
         around(datetime(y, 2, 28, 12), (0, -1, 1))
         around(datetime(y, 3, 1), (0, -1, 1, -10, -20, -23))
         around(datetime(y, 7, 1, 12), (0,))
-    gps0 = datetime(1980, 1, 6)
-    for w in (0, 1, 1023, 1024, 2047, 2048, 2094):
-        for o in (0, 1, -1, -10, 10 ** 6, -10 ** 6, 43200 * 10 ** 6):
-            u = us_of(gps0 + timedelta(days=7 * w)) + o
-            if u >= U_GPS0:
-                out.append(u)
     return [u for u in out if U_MIN <= u <= U_MAX]
+
+
+def gps_edge_epochs():
+    """GPS week roll-overs (weeks 0, 1, 1023/1024, 2047/2048, 2094): the week start first, then +-1 us, +-10 us, +-1 s, noon."""
+    gps0 = datetime(1980, 1, 6)
+    out = []
+    for o in (0, -1, 1, -10, 10 ** 6, -10 ** 6, 43200 * 10 ** 6, -23):
+        for w in (0, 1024, 2048, 1023, 2047, 1, 2094):
+            u = us_of(gps0 + timedelta(days=7 * w)) + o
+            if U_GPS0 <= u <= U_MAX:
+                out.append(u)
+    return out
 
 
 def rand_epoch(rng, lo=U_MIN, hi=U_MAX):
@@ -381,6 +387,8 @@ def run(ctx):
     edges = edge_epochs()
     rng.shuffle(edges)
     edge_pos = 0
+    gps_edges = gps_edge_epochs()
+    gps_pos = 0
 
     def how(fmt, scale, shape, val, val2=None):
         return (f"Time({val!r}, " + (f"val2={val2!r}, " if val2 is not None else "") + f"scale={scale!r}, fmt={fmt!r})   [{shape}]")
@@ -398,7 +406,10 @@ def run(ctx):
         lo = U_GPS0 if (scale == "gps" and (f_in in GPS_ONLY or rng.random() < 0.7)) else U_MIN
         us_list = []
         for _ in range(n):
-            if rng.random() < 0.45:
+            if scale == "gps" and rng.random() < 0.3:
+                us_list.append(gps_edges[gps_pos % len(gps_edges)])
+                gps_pos += 1
+            elif rng.random() < 0.45:
                 for _try in range(len(edges)):
                     u = edges[edge_pos % len(edges)]
                     edge_pos += 1
@@ -685,7 +696,7 @@ def search_oracle(Time, rng):
     read every format of a Time and construct a new Time from it; compare the instants in exact arithmetic."""
     res = dict(jd=100e-6, mjd=100e-6, datetime=1e-6, gps_ws=1e-9, gps_seconds=100e-6, jyear=100e-6, decimalyear=100e-6,
                yydddsssss=1 + 1e-6, yyyydddsssss=1 + 1e-6, isot=1e-6, iso=1e-6, yday=1e-6, date=86400 + 1e-6)
-    for u in edge_epochs() + [rand_epoch(rng) for _ in range(300)]:
+    for u in edge_epochs() + gps_edge_epochs() + [rand_epoch(rng) for _ in range(300)]:
         for scale in ("utc", "gps"):
             if scale == "gps" and u < U_GPS0:
                 continue
